@@ -24,14 +24,15 @@ from mc.gen import faults_c11 as G
 ID = 'C11'
 TITLE = 'Every input ends in a verdict or a library error; documented limits hold'
 RULE = ('states = distinct (document, position, fault) situations: every catalogue fault (46) at every element / '
-        'attribute / text position of 12 seed documents and of the corpus files <= 2 kB (pairs of faults on seeds: '
+        'attribute / text position of 13 seed documents and of the corpus files <= 2 kB (pairs of faults on seeds: '
         'seed-selected slice in quick, all in thorough), every truncation prefix and every single-byte substitution '
         'from {<,&,",00,FF,>} of their serialisations, and every (limit setting, resource mode, size) of the limit '
         'sweeps; transitions = API calls judged (XMLResource construction, is_valid, iter_errors, decode lax, decode '
         'strict; eager and lazy; XMLSchema10 and XMLSchema11; for documents carrying an xsi:schemaLocation / '
         'xsi:noNamespaceSchemaLocation also the calls that read location hints: module-level xmlschema.is_valid / '
         'iter_errors / to_dict(lax) with the schema object, schema.iter_errors / decode(lax) with '
-        'use_location_hints=True, XMLResource.get_locations()); a case is non-trivial when its (document, fault kind, '
+        'use_location_hints=True, XMLResource.get_locations(); and decode(validation=skip), eager and lazy, which may '
+        'return or raise any library exception); a case is non-trivial when its (document, fault kind, '
         'well-formedness, per-call outcome vector) signature is new')
 ASSUMPTIONS = [
     'well-formedness is decided by the stdlib expat binding with namespace processing (the reference); the library '
@@ -125,6 +126,9 @@ def load_doc(docid):
         hcalls, hbad, _hl, _hv = judge_hints(entry['data'], entry['hint_schemas'], _wf, bad)
         entry['hbase'] = (hcalls, hbad)
         entry['hint_values'] = hint_values(entry['data'])
+        scalls, sbad, _sl, _sv = judge_skip(entry['data'], entry['schemas'], bad)
+        entry['sbase'] = (scalls, sbad)
+        entry['base_bad'] |= {(b[0], b[1], b[2]) for b in sbad}
         entry['base_bad'] |= {(b[0], b[1], b[2]) for b in hbad}
     _docs[docid] = entry
     gc.collect()
@@ -309,6 +313,45 @@ def judge_hints(text, schemas, wf, main_bad, base_values=None):
     return calls, bad, labels, ''.join(vector)
 
 
+def judge_skip(text, schemas, main_bad):
+    """decode(validation='skip'), eager and lazy, for every schema version: must return normally or raise an
+    XMLSchemaException.  A call that escapes exactly like the lax or strict decode of the same version and mode is
+    the same defect and stays under that call's key.  Returns (calls, bad, labels, vector)."""
+    if isinstance(text, str):
+        def mk():
+            return text
+    else:
+        def mk():
+            return io.BytesIO(text)
+    failed_plain = {(b[0], b[1], b[2]) for b in main_bad}
+    bad, labels, vector = [], [], []
+    calls = 0
+    gc.disable()
+    for v in sorted(schemas):
+        for mode, lazy in (('e', False), ('l', True)):
+            calls += 1
+            label = '%s/%s/decode_skip' % (v, mode)
+            try:
+                schemas[v].decode(XMLResource(mk(), lazy=True) if lazy else mk(), validation='skip')
+                out = 'data'
+            except CaseTimeout:
+                raise
+            except BaseException as e:                       # noqa
+                name = type(e).__name__
+                if isinstance(e, XMLSchemaException):
+                    out = name if isinstance(e, XMLResourceError) else 'lib-error'
+                else:
+                    out = 'ESCAPE'
+                    if not any(('%s/%s/%s' % (v, mode, api), 'escape', name) in failed_plain
+                               for api in ('decode_lax', 'decode_strict')):
+                        bad.append((label, 'escape', name, str(e)[:120].replace('\n', ' ')))
+                del e
+                gc.collect()
+            labels.append('decode_skip:%s' % out)
+            vector.append(out[:3])
+    return calls, bad, labels, ''.join(vector)
+
+
 def discrepancies(prefix, bad, calls):
     """Groups the bad calls of one document by (kind, exception type): one key per group."""
     groups = {}
@@ -335,15 +378,16 @@ def run_document(acc, prefix, text, entry, case, sigkind, timeout=20.0):
         with acc.guard(timeout):
             calls, bad, labels, vector, wf = judge_document(text, entry['schemas'])
             hcalls, hbad, hlabels, hvector = judge_hints(text, entry['hint_schemas'], wf, bad, entry['hint_values'])
+            scalls, sbad, slabels, svector = judge_skip(text, entry['schemas'], bad)
     except CaseTimeout:
         acc.ev()
         acc.out('HANG')
         acc.disc('%s|hang' % prefix, '%s: no verdict within %.0f s' % (prefix, timeout), case)
         return
     acc.ev()
-    acc.st(states=1, transitions=calls + hcalls, traces=1)
-    acc.nt('%s|%s|%s|%s%s' % (entry['id'], sigkind, wf, vector, '|' + hvector if hcalls else ''))
-    for lab in labels + hlabels:
+    acc.st(states=1, transitions=calls + hcalls + scalls, traces=1)
+    acc.nt('%s|%s|%s|%s|%s%s' % (entry['id'], sigkind, wf, vector, svector, '|' + hvector if hcalls else ''))
+    for lab in labels + hlabels + slabels:
         acc.out(lab)
     acc.cnt('documents_wellformed' if wf else 'documents_not_wellformed')
     if hcalls:
@@ -352,11 +396,14 @@ def run_document(acc, prefix, text, entry, case, sigkind, timeout=20.0):
         # calls that already fail in the same way on the unfaulted document are reported once, as 'C11|base|...'
         kept = [b for b in bad if (b[0], b[1], b[2]) not in entry['base_bad']]
         hkept = [b for b in hbad if (b[0], b[1], b[2]) not in entry['base_bad']]
-        acc.cnt('failing_calls_attributed_to_the_unfaulted_document', len(bad) - len(kept) + len(hbad) - len(hkept))
-        bad, hbad = kept, hkept
-    for key, what in discrepancies(prefix, bad, calls) + discrepancies(prefix + '|hints', hbad, hcalls):
+        skept = [b for b in sbad if (b[0], b[1], b[2]) not in entry['base_bad']]
+        acc.cnt('failing_calls_attributed_to_the_unfaulted_document',
+                len(bad) - len(kept) + len(hbad) - len(hkept) + len(sbad) - len(skept))
+        bad, hbad, sbad = kept, hkept, skept
+    for key, what in (discrepancies(prefix, bad, calls) + discrepancies(prefix + '|hints', hbad, hcalls)
+                      + discrepancies(prefix + '|skip', sbad, scalls)):
         acc.disc(key, what, case)
-    return bad + hbad
+    return bad + hbad + sbad
 
 
 # --- fault shards -------------------------------------------------------------------------------------
@@ -406,11 +453,13 @@ def run_pairs(acc, entry, tier, seed, lo, hi):
 def run_base(acc, entry):
     calls, bad = entry['base']
     hcalls, hbad = entry['hbase']
+    scalls, sbad = entry['sbase']
     acc.ev()
-    acc.st(states=1, transitions=calls + hcalls, traces=1)
-    acc.out('base:%s' % ('disc' if bad or hbad else 'ok'))
+    acc.st(states=1, transitions=calls + hcalls + scalls, traces=1)
+    acc.out('base:%s' % ('disc' if bad or hbad or sbad else 'ok'))
     for key, what in (discrepancies('C11|base|%s' % entry['id'], bad, calls)
-                      + discrepancies('C11|base|%s|hints' % entry['id'], hbad, hcalls)):
+                      + discrepancies('C11|base|%s|hints' % entry['id'], hbad, hcalls)
+                      + discrepancies('C11|base|%s|skip' % entry['id'], sbad, scalls)):
         acc.disc(key, what, {'kind': 'base', 'doc': entry['id']})
 
 
@@ -730,7 +779,8 @@ def replay(case):
     entry = load_doc(case['doc'])
     if kind == 'base':
         return (discrepancies('C11|base|%s' % entry['id'], entry['base'][1], entry['base'][0])
-                + discrepancies('C11|base|%s|hints' % entry['id'], entry['hbase'][1], entry['hbase'][0]))
+                + discrepancies('C11|base|%s|hints' % entry['id'], entry['hbase'][1], entry['hbase'][0])
+                + discrepancies('C11|base|%s|skip' % entry['id'], entry['sbase'][1], entry['sbase'][0]))
     if kind == 'fault':
         items = [(f, tuple([p[0], tuple(p[1])] + list(p[2:]))) for f, p in case['items']]
         text = fault_text(entry, items)
@@ -746,13 +796,16 @@ def replay(case):
     calls, bad, _labels, _vector, wf = judge_document(text, entry['schemas'])
     hcalls, hbad, _hl, _hv = judge_hints(text, entry['hint_schemas'], wf, bad, entry['hint_values'])
     bad = [b for b in bad if (b[0], b[1], b[2]) not in entry['base_bad']]
+    scalls, sbad, _sl, _sv = judge_skip(text, entry['schemas'], bad)
     hbad = [b for b in hbad if (b[0], b[1], b[2]) not in entry['base_bad']]
-    return discrepancies(prefix, bad, calls) + discrepancies(prefix + '|hints', hbad, hcalls)
+    sbad = [b for b in sbad if (b[0], b[1], b[2]) not in entry['base_bad']]
+    return (discrepancies(prefix, bad, calls) + discrepancies(prefix + '|hints', hbad, hcalls)
+            + discrepancies(prefix + '|skip', sbad, scalls))
 
 
 def bounds(tier, seed):
     return {
-        'size': '12 seeds (63-207 bytes, 3-11 elements) + corpus files <= 2048 bytes with a resolvable schema',
+        'size': '13 seeds (63-207 bytes, 3-11 elements) + corpus files <= 2048 bytes with a resolvable schema',
         'deviations': ('1 fault (all documents), 1 truncation, 1 substituted byte; 2 compatible faults on seeds (not two '
                        '10^5-character values together): %s; corpus byte substitutions: %s' % (('residue class seed mod %d' % PAIR_SLICES, 'residue class seed mod %d'
                                                % SUBST_SLICES) if tier == 'quick' else ('all', 'all'))),
